@@ -102,7 +102,7 @@ def run(ctx, rep, tier):
         src = ast.unparse(st)
         if isinstance(st, ast.If) and "not in allowed_types" in ast.unparse(st.test) and any(isinstance(x, ast.Raise) and raised_class(x) == "IllegalParseTree" for x in st.body):
             idx_check = i
-        if isinstance(st, ast.If) and "should_early_bind()" in ast.unparse(st.test):
+        if isinstance(st, ast.If) and ast.unparse(st.test) == "argspec.should_early_bind()" and idx_bind is None:
             idx_bind = i
         if isinstance(st, ast.Assign) and "bound_arguments[" in src:
             idx_store = i
@@ -199,3 +199,132 @@ def run(ctx, rep, tier):
     # call statement: macro wins over hook, ordered
     m = re.search(r"self\._lookup_named_entity\((\(|\[)MacroArgumentKind\.MACRO, MacroArgumentKind\.HOOK(\)|\]), stmt\.children\[0\]\)", ps)
     rep.check(m is not None, "C13.e", "ParseCtx._parse_stmt", "call resolves macro before hook, in a fixed order", "call-statement lookup order is no longer the ordered pair (macro, hook)")
+
+
+# ---------------------------------------------------------------------------------------------------------------- C13.g
+def _call_site_scope(ctx, rep, tier):
+    """C13.g: a match/expr argument is a parse tree expanded where the callee uses it. 'Arguments substituted' means the names inside it
+    keep the meaning they have at the call site, so (1) the stored tree carries a *snapshot* of the call-site frames, taken before the
+    callee's frame is pushed, (2) every parse entry point that can receive such a tree makes that snapshot the current frame stack while
+    it parses it - before it looks at the tree - and restores the stack afterwards, (3) looked-up argument trees flow only into those
+    entry points (or are inspected for their label)."""
+    model = ctx.model
+    rep.rule("C13.g", "late-bound (match/expr) arguments are expanded with the argument frames of their call site: snapshot at bind time, scope switch at every parse entry point, no other consumer")
+    BAF = "Macro.bind_arguments_for"
+    if "BoundArgumentTree" not in model.classes:
+        rep.bad("C13.g", BAF, "late-bound arguments carry no scope", "a match/expr argument is stored as a bare tree and parsed with the callee's frame on top: names in it are captured by callee "
+                "parameters of the same name (`macro inner(expr v, expr w){x = w;} macro outer(expr v){inner(5, [v + 1]);}` stores 6 for outer(3); the same name recurses forever)")
+        return
+    # (1) snapshot at bind time
+    init = "BoundArgumentTree.__init__"
+    rep.check(model.has(init, "self.scope = tuple(scope)") or model.has(init, "self.scope = list(scope)"), "C13.g", init, "scope is copied (a later push of the callee frame must not show through)",
+              "the argument keeps a reference to the live frame stack: once the callee's frame is pushed it is visible to the argument again (dynamic capture)")
+    rep.check(model.has(init, "super().__init__(tree.data, tree.children, tree.meta)"), "C13.g", init, "label, children and position are those of the argument tree", "wrapped tree no longer mirrors the argument")
+    f = model.func(BAF)
+    loop = next((n for n in f.body if isinstance(n, ast.For)), None)
+    if loop is None:
+        raise AnalysisError("C13.g: binding loop not found")
+    wrap = store = None
+    for i, st in enumerate(loop.body):
+        if wrap is None and model.has(BAF, "if not argspec.should_early_bind() and (not isinstance(value, BoundArgumentTree)):\n    value = BoundArgumentTree(value, parse_ctx.bound_argument_stack)", root=[st]):
+            wrap = i
+        if isinstance(st, ast.Assign) and "bound_arguments[" in ast.unparse(st.targets[0]):
+            store = i
+    rep.check(wrap is not None and store is not None and wrap < store, "C13.g", BAF, "every late-bound value is wrapped with the call-site frames before it is stored",
+              "a late-bound argument reaches the callee's frame without the frames of its call site")
+    rep.check(model.has("ParseCtx._parse_macro_call", "self.bound_argument_stack.append(macro.bind_arguments_for(arguments, self))"), "C13.g", "ParseCtx._parse_macro_call",
+              "arguments are bound (scope snapshot taken) before the callee frame is pushed", "binding no longer precedes the push of the callee frame")
+    # (2) scope switch
+    sw = "ParseCtx._parse_in_argument_scope"
+    fn = model.func(sw)
+    tr = next((n for n in fn.body if isinstance(n, ast.Try)), None)
+    ok = tr is not None and model.has(sw, "self.bound_argument_stack = list(expr.scope)") and tr.finalbody and \
+        model.has(sw, "self.bound_argument_stack = saved_stack", root=tr.finalbody) and model.has(sw, "saved_stack = self.bound_argument_stack") and \
+        model.has(sw, "return parse_function(lark.Tree(expr.data, expr.children, expr.meta), *args, **kwargs)", root=tr.body)
+    rep.check(ok, "C13.g", sw, "frames := the argument's snapshot; parse the plain tree; restore in finally", "the scope switch no longer installs the snapshot / restores the stack on every exit")
+    entries = {"ParseCtx._parse_match_expr": "return self._parse_in_argument_scope(self._parse_match_expr, expr)",
+               "ParseCtx._parse_integer_expr": "return self._parse_in_argument_scope(self._parse_integer_expr, expr, into_storage=into_storage)",
+               "ParseCtx._parse_math_expr": "return self._parse_in_argument_scope(self._parse_math_expr, expr, into_storage=into_storage)"}
+    for q, call in entries.items():
+        body = strip_doc(model.func(q).body)
+        first = body[0] if body else None
+        ok = isinstance(first, ast.If) and ast.unparse(first.test) == "isinstance(expr, BoundArgumentTree)" and model.has(q, call, root=first)
+        rep.check(ok, "C13.g", q, "first statement: a scoped argument is re-parsed under its call-site frames (destination type kept)",
+                  f"{q.split('.')[1]} looks at a late-bound argument before switching to its call-site frames (or drops the destination type)")
+    # (3) consumers of looked-up argument trees
+    n = 0
+    for q, fdef in model.functions.items():
+        for c in calls_in(fdef, nested=False):
+            if not (isinstance(c.func, ast.Attribute) and c.func.attr == "_lookup_named_entity" and c.args and "MacroArgumentKind.EXPR" in ast.unparse(c.args[0])):
+                continue
+            if q == BAF:
+                continue    # forwarding: the looked-up value is already scoped and is stored as it is (checked above)
+            n += 1
+            par = model.parents.get(c)
+            what = f"lookup of a match/expr argument in {q.split('.')[-1]}"
+            if isinstance(par, ast.Call) and ast.unparse(par.func) in ("self._parse_match_expr", "self._parse_integer_expr", "self._parse_math_expr"):
+                rep.ok("C13.g", q, f"{what}: passed straight to {par.func.attr}")
+                continue
+            if isinstance(par, ast.Assign) and len(par.targets) == 1:
+                tgt = par.targets[0]
+                names = [e.id for e in (tgt.elts if isinstance(tgt, ast.Tuple) else [tgt]) if isinstance(e, ast.Name)]
+                var = names[0] if names else None
+                bad = []
+                for u in _following_loads(model, par, fdef, var):
+                    if True:
+                        up = model.parents.get(u)
+                        if isinstance(up, ast.Call) and u in up.args and isinstance(up.func, ast.Attribute):
+                            if ast.unparse(up.func) in ("self._parse_match_expr", "self._parse_integer_expr", "self._parse_math_expr"):
+                                continue
+                            if up.func.attr in ("imbue",) or ast.unparse(up.func).endswith("Error") or ast.unparse(up.func) == "OutIntegerExpr":
+                                continue
+                            bad.append(ast.unparse(up)[:60])
+                        elif isinstance(up, ast.Call) and u in up.args and isinstance(up.func, ast.Name):
+                            if up.func.id in ("IllegalParseTree", "OutIntegerExpr", "isinstance"):
+                                continue
+                            bad.append(ast.unparse(up)[:60])
+                        elif isinstance(up, ast.Attribute) and up.attr in ("data", "children", "meta", "holds_buflike", "type", "enum_values"):
+                            # label tests / the children of a string constant (no names inside); .children of anything else must not be walked here
+                            gp = model.parents.get(up)
+                            if up.attr == "children" and not (isinstance(gp, ast.Subscript) and ast.unparse(gp).endswith(".children[0]") and
+                                                              isinstance(model.parents.get(gp), ast.Attribute) and model.parents[gp].attr == "value"):
+                                bad.append(ast.unparse(gp)[:60])
+                            continue
+                        else:
+                            continue
+                rep.check(not bad, "C13.g", q, f"{what}: `{var}` reaches only the scoped parse entry points / label tests",
+                          f"a looked-up argument tree is consumed outside the scoped entry points: {bad[:3]}")
+                continue
+            rep.bad("C13.g", q, what, f"unrecognised use of a looked-up argument tree: `{ast.unparse(par)[:80]}`")
+    if n < 5:
+        raise AnalysisError(f"C13.g: only {n} lookups of match/expr arguments found (floor 5)")
+
+
+def _following_loads(model, stmt, fdef, var):
+    """Loads of `var` in statements executed after `stmt` (its later siblings and those of its enclosing statements), up to a re-assignment."""
+    out = []
+    node = stmt
+    while node is not fdef and node in model.parents:
+        parent = model.parents[node]
+        for fld in ("body", "orelse", "finalbody", "handlers"):
+            lst = getattr(parent, fld, None)
+            if isinstance(lst, list) and node in lst:
+                for st in lst[lst.index(node) + 1:]:
+                    if isinstance(st, ast.Assign) and any(isinstance(t, ast.Name) and t.id == var for t in st.targets):
+                        break
+                    out += [u for u in ast.walk(st) if isinstance(u, ast.Name) and u.id == var and isinstance(u.ctx, ast.Load)]
+                    if isinstance(st, (ast.Return, ast.Raise)):
+                        return out        # nothing after it runs on this path
+                else:
+                    continue
+                return out
+        node = parent
+    return out
+
+
+_run_g0 = run
+
+
+def run(ctx, rep, tier):
+    _run_g0(ctx, rep, tier)
+    _call_site_scope(ctx, rep, tier)
